@@ -10,8 +10,8 @@
    pad_value / sort_reverse / shortcut_len / multi_min are read from the CURRENT source by
    translator/gen_c05.py (Gen/C05Consts.v): C05_winner_maximal needs sort_reverse = true,
    C05_shorter_chain_not_penalised needs pad_value = 1. *)
-From Coq Require Import List String Bool QArith Arith Permutation.
-From NG Require Import Gen.C05Consts V2.Conflict V2.Conflict_proofs.
+From Coq Require Import List String Bool QArith Qpower ZArith Arith Permutation.
+From NG Require Import Gen.C05Consts Gen.MatchConsts V2.Conflict V2.Conflict_proofs.
 Import ListNotations.
 Open Scope list_scope.
 Open Scope nat_scope.
@@ -50,6 +50,29 @@ Theorem C05_winner_maximal :
       lex_cmp (key_of (loop_cands args cands l) w) (key_of (loop_cands args cands l) c) <> Lt.
 Proof. exact (fun args args_eqb pick cands l w => winner_is_maximal args args_eqb pick cands l w eq_refl). Qed.
 Print Assumptions C05_winner_maximal.
+
+(* "Most specific" for the match on the triggering event: a candidate whose first score is
+   strictly below another candidate's of the same loop is never picked ... *)
+Theorem C05_less_specific_never_wins :
+  forall args args_eqb pick (cands : list (cand args)) l c c' x a y b,
+    picks_ok pick ->
+    In c (loop_cands args cands l) -> In c' (loop_cands args cands l) ->
+    c_scores c = x :: a -> c_scores c' = y :: b -> (x < y)%Q ->
+    ~ In (c, Win) (loop_decisions args args_eqb pick cands l).
+Proof. exact (fun args args_eqb pick cands l c c' x a y b => less_specific_never_wins args args_eqb pick cands l c c' x a y b eq_refl). Qed.
+Print Assumptions C05_less_specific_never_wins.
+
+(* ... in particular, scores being priority * factor^(number of unmentioned parameters) (C04,
+   factor read from the source): with equal priority, more unmentioned parameters never win *)
+Theorem C05_more_unmentioned_never_wins :
+  forall args args_eqb pick (cands : list (cand args)) l c c' p k k' a b,
+    picks_ok pick ->
+    In c (loop_cands args cands l) -> In c' (loop_cands args cands l) ->
+    (0 < p)%Q -> (0 <= k' < k)%Z ->
+    c_scores c = (p * factor ^ k)%Q :: a -> c_scores c' = (p * factor ^ k')%Q :: b ->
+    ~ In (c, Win) (loop_decisions args args_eqb pick cands l).
+Proof. exact (fun args args_eqb pick cands l c c' p k k' a b => more_unmentioned_never_wins args args_eqb pick cands l c c' p k k' a b eq_refl). Qed.
+Print Assumptions C05_more_unmentioned_never_wins.
 
 (* ... and padding with 1.0 means: a chain that is a prefix of a longer chain is never ranked
    below it, as long as the further scores are <= 1 (C04_score_range: every score is). *)
